@@ -872,8 +872,10 @@ pub fn child_panic(w: usize, n: usize, fail: usize, delay_ms: u64, prior: u64) -
     for _ in pipe {
         got += 1;
     }
+    // the consumer got to the end of the stream although an item's processing function panicked: the process was not
+    // ended by the panic (the stream is silently cut short)
     println!("stream ended after {got} items");
-    std::process::exit(0)
+    std::process::exit(42)
 }
 
 // ---------------------------------------------------------------------------
